@@ -39,7 +39,7 @@ def gen_frames(rng, framer, units, n, ident_p=0.15):
     for _ in range(n):
         uid = rng.choice(hosted + hosted + [0, 1, 3, 255, rng.randrange(256)])
         layout = dict(units)[uid] if uid in dict(units) else units[0][1]
-        tid = rng.randrange(65536)
+        tid = rng.choice([0, 0, 1, 0xFFFF, rng.randrange(65536), rng.randrange(65536)])     # 0 and 0xFFFF are ordinary ids
         if rng.random() < ident_p:
             f = serverlib.frame_pdu(framer, rng.choice(IDENT_PDUS), uid, tid)
         else:
